@@ -11,6 +11,7 @@ import (
 	"fmt"
 	"os"
 	"path/filepath"
+	"runtime"
 	"runtime/debug"
 	"sort"
 	"strconv"
@@ -381,6 +382,9 @@ func Exec[C any](s *Spec[C], c C) []Violation {
 		case <-time.After(s.Watchdog):
 			o.Desc = "hang"
 			o.Violations = append(o.Violations, Violation{Sig: "hang", Msg: fmt.Sprintf("case did not return within %s", s.Watchdog)})
+			buf := make([]byte, 8<<20)
+			buf = buf[:runtime.Stack(buf, true)]
+			os.WriteFile(filepath.Join(RunDir(), "hang-stacks.txt"), buf, 0644)
 		}
 	} else {
 		o = runGuarded(s, c)
